@@ -57,7 +57,7 @@ var KeyKinds = []string{"rsa", "p256", "p384", "p521"}
 
 func genKey(kind string) (crypto.Signer, error) {
 	switch kind {
-	case "rsa", "rsa2":
+	case "rsa", "rsa2", "rsachain":
 		return rsa.GenerateKey(rand.Reader, 2048)
 	case "p256", "p256b":
 		return ecdsa.GenerateKey(elliptic.P256(), rand.Reader)
@@ -99,6 +99,42 @@ func Cert(kind string) *certloader.Certificate {
 		panic(err)
 	}
 	c := &certloader.Certificate{Leaf: leaf, Certificates: []*x509.Certificate{leaf}, PrivateKey: key, KeyName: "verif-" + kind}
+	if kind == "rsachain" {
+		// a real chain: root -> CA 5 -> … -> CA 1 -> leaf, all RSA-2048 (the root is not embedded: five intermediates, more than 4 KiB of DER): signature blocks and
+		// certificate tables that outgrow an initial buffer.  The leaf is re-issued by CA 1.
+		var parent *x509.Certificate
+		var parentKey crypto.Signer
+		var cas []*x509.Certificate
+		for i := 6; i >= 1; i-- {
+			ck, err := rsa.GenerateKey(rand.Reader, 2048)
+			if err != nil {
+				panic(err)
+			}
+			ct := &x509.Certificate{
+				SerialNumber: big.NewInt(int64(900 + i)), Subject: pkix.Name{CommonName: fmt.Sprintf("verif chain CA %d", i), Organization: []string{"verif"}},
+				NotBefore: time.Now().Add(-24 * time.Hour), NotAfter: time.Now().Add(365 * 24 * time.Hour),
+				KeyUsage: x509.KeyUsageCertSign, BasicConstraintsValid: true, IsCA: true,
+			}
+			p, pk := ct, crypto.Signer(ck)
+			if parent != nil {
+				p, pk = parent, parentKey
+			}
+			cd, err := x509.CreateCertificate(rand.Reader, ct, p, ck.Public(), pk)
+			if err != nil {
+				panic(err)
+			}
+			cc, _ := x509.ParseCertificate(cd)
+			cas = append([]*x509.Certificate{cc}, cas...)
+			parent, parentKey = cc, ck
+		}
+		ld, err := x509.CreateCertificate(rand.Reader, tmpl, parent, key.Public(), parentKey)
+		if err != nil {
+			panic(err)
+		}
+		leaf, _ = x509.ParseCertificate(ld)
+		c.Leaf = leaf
+		c.Certificates = append([]*x509.Certificate{leaf}, cas...)
+	}
 	// PGP entity over the same private key (RSA and ECDSA are both supported by the packet layer)
 	if ent, err := pgpEntity(kind, key); err == nil {
 		c.PgpKey = ent
